@@ -347,8 +347,12 @@ Inductive edit :=
 Fixpoint update_node (u : uid) (f : node -> node) (t : tree) : tree :=
   match t with T n ch => if N.eqb u (nuid n) then T (f n) ch else T n (map (update_node u f) ch) end.
 
+(* dictionaries are kept sorted by key token (the driver sorts its observation the same way) *)
 Fixpoint dict_set (k v : Z) (d : dictv) : dictv :=
-  match d with [] => [(k, v)] | (k', v') :: r => if Z.eqb k k' then (k', v) :: r else (k', v') :: dict_set k v r end.
+  match d with
+  | [] => [(k, v)]
+  | (k', v') :: r => if Z.eqb k k' then (k', v) :: r else if Z.ltb k k' then (k, v) :: (k', v') :: r else (k', v') :: dict_set k v r
+  end.
 Definition dict_update (d new : dictv) : dictv := fold_left (fun acc kv => dict_set (fst kv) (snd kv) acc) new d.
 
 Fixpoint heap_set (l : loc) (d : dictv) (h : list (loc * dictv)) : list (loc * dictv) :=
@@ -362,7 +366,7 @@ Definition apply_edit (w : world) (b : bool) (u : uid) (e : edit) : res world :=
   | Some t =>
       let p := pl (root_node t) in
       match e with
-      | SetAttr k v => Ok (set_ws w b (update_node u (with_pl (fun q => set_attrs q (dict_set k v (attrs q)))) (ws w b)) (wnext w))
+      | SetAttr k v => Ok (set_ws w b (update_node u (with_pl (fun q => set_attrs q (override1 k v (attrs q)))) (ws w b)) (wnext w))
       | SetVerts v => Ok (set_ws w b (update_node u (with_pl (fun q => set_payload q v (cells q) (vals q))) (ws w b)) (wnext w))
       | SetVals v => Ok (set_ws w b (update_node u (with_pl (fun q => set_payload q (verts q) (cells q) (Some v))) (ws w b)) (wnext w))
       | SetMeta d =>
